@@ -20,11 +20,11 @@ CHECKS = {
         "refusal changes nothing, realloc only for the last block and in place, free of the last block reclaims. Tie: per-step comparison of returned offset, last and top "
         "with the implementation on unaligned buffers, huge sizes and overflowing calloc products, plus the harness's own spec oracle.",
    note="calloc's zeroing (memset) and the buffer being a real object (base+capacity < 2^64) are assumed; alignments in K divide 65536.", ref="§5 C09"),
- "C05": dict(cat="translation_validation", tech="Lean 4 executable model validated against the implementation per call (white-box: both heads, open transaction); FIFO-refinement theorems in progress",
-   text="The ring's single-threaded value semantics (two-piece copies, masked 32-bit indices, transactions) is an executable Lean model; every call's return value, delivered bytes, "
-        "both heads and the transaction record are compared with the implementation over histories whose request sizes cluster at the fits/does-not-fit boundary for sizes 1..130 and 2^k±1. "
-        "The refinement theorems to the byte FIFO are being added; until they build this is a validated model, not a proof.",
-   note="memcpy modelled as list copy; sizes 0 and > 2^31 are outside the property.", ref="§5 C05"),
+ "C05": dict(cat="proof", tech="Lean 4 theorems (bit-smear = least power of two via testBit; refinement of the masked 32-bit ring to a byte FIFO; transaction invariant) and white-box correspondence of both heads and the open transaction",
+   text="Proved: next_pow2_spec (for 1 <= s <= 2^31 the smear is the least power of two >= s), new_wf/new_capacity, ring_space_sum (read_space + write_space = capacity always), write_refines / read_refines / peek_refines / skip_refines / reset_refines "
+        "(success exactly when the request fits, exact bytes in FIFO order, otherwise 0 and no change), and for transactions begin_ok, tx_amend (invisible, contiguous, NO_MEM exactly beyond the free space seen at begin), tx_write_space, tx_commit_is_one_write, "
+        "tx_survives_read. Tie: per call the return value, delivered bytes, both heads and the transaction record compared with the implementation for sizes 1..130 and 2^k±1, requests clustered at the fits/does-not-fit boundary.",
+   note="memcpy modelled as list copy; sizes 0 and > 2^31 make next_power_of_two return 0 and are outside the property; x & mask is modelled as x % size (equal for the power-of-two sizes proved).", ref="§5 C05"),
  "C16": dict(cat="proof", tech="Lean 4 theorems (loop invariant by induction on fuel: the C scanner equals the token-level specification for every string and environment) and model/implementation correspondence on an exhaustive small alphabet",
    text="expand_terminates and expand_eq_spec are proved for every NUL-free string and every environment (fuel length+1 always suffices; the scanner's output is the token-level spec: "
         "$NAME with the longest [A-Z0-9_] run, values appended verbatim, unset references and all other text copied). Token lemmas state the tilde rules. Tie: the scanner model is compared with "
@@ -75,14 +75,24 @@ CHECKS = {
    text="Proved for all pairs: join_eq_cpp17_text, join_null (NULL = empty), iter_elements_eq_cpp17, relative_null_iff_cpp17_empty, relative_same_path, preferred_id_posix. Tie: all pairs of strings over {/ . a} up to length 5 (6 thorough) plus random pairs and NULL "
         "arguments: text or NULL equals the model's; the harness judges join against operator/ text and relative against libstdc++; ASan with exact-size arguments observes in-bounds reads and writes.",
    note="POSIX build; out-of-bounds access is runtime-checked.", ref="§5 C12"),
- "C14": dict(cat="translation_validation", tech="Lean 4 executable model of zix_copy_file over an abstract file system with an arbitrary per-call fault oracle, validated against the implementation with every system call interposed (linker --wrap); theorems in progress",
-   text="Scenarios: source kind x size around the block size x destination state (absent, file, same path, hard link, symlink, directory) x option x kernel copy available/EXDEV/EINVAL-after-partial x injected errno or short count at every call position x block refusal. "
-        "Compared: status, source intact, destination bytes, descriptor balance (API) and the system-call trace (white-box). Theorems (SUCCESS implies complete copy for every fault oracle, source untouched, no-fault success, EXCL, descriptors closed) are being added.",
-   note="Abstract POSIX layer (open/fstat/ftruncate/read/write/copy_file_range/fdatasync/close with errno); no concurrent modification; durability after power loss not modelled.", ref="§5 C14"),
- "C15": dict(cat="translation_validation", tech="Lean 4 executable model (file-type table regenerated; file_equals page loop; create_directories over an abstract tree using the path-iterator model) validated against the implementation on a real scratch tree and against direct system calls; theorems in progress",
-   text="create_directories on every path shape over {a, b, ., .., empty} up to 4 (5 thorough) components x 7 pre-existing trees: status, directory-afterwards, idempotence and the resulting tree equal the model's; file_equals on size pairs around 0/512/page/3 pages with the difference at boundaries, "
-        "hard links, refused page allocation; file/symlink type for 9 kinds against the regenerated table and stat/lstat; file_size; canonical_path vs realpath; dir_for_each; descriptor balance on every call. file_type_table is proved by decide; the other theorems are being added.",
-   note="Symlinks, permissions and races are exercised against the real file system only; the theorems are about the symlink-free tree.", ref="§5 C15"),
+ "C14": dict(cat="proof", tech="Lean 4 theorems over a model of zix_copy_file with an ARBITRARY per-call fault oracle (errno modelled), plus correspondence with every system call interposed (linker --wrap)",
+   text="Proved for every source, destination state, option and every fault oracle (a failing call sets errno non-zero): copy_success_complete (SUCCESS only if the destination holds exactly the source's bytes), copy_source_untouched, copy_no_faults_succeeds "
+        "(short counts, EXDEV/EINVAL/ENOSYS from copy_file_range and a refused block are not failures), copy_excl_exists / copy_excl_never_modifies, copy_refuses_nonregular, copy_onto_itself_refused, copy_closes_all. Tie: status, source intact, destination bytes, "
+        "descriptor balance and the system-call trace compared under injected errno / short counts at every call position, for 9 sizes x 8 destination states x both options x 4 kernel-copy modes.",
+   note="Abstract POSIX layer (open/fstat/ftruncate/read/write/copy_file_range/fdatasync/close); successful calls leave errno unchanged; block size positive (the code guarantees 4096 otherwise); no concurrent modification; durability not modelled. A close error of the last descriptor is not reported (content is complete).", ref="§5 C14"),
+ "C15": dict(cat="proof", tech="Lean 4 theorems (create_directories over an abstract tree via the proved path-iterator model; file_equals page loop; regenerated file-type table by decide) and correspondence on a real scratch tree and against direct system calls",
+   text="Proved: mkdirs_success_iff_dir (SUCCESS exactly when the path names a directory afterwards, every path shape, every well-formed tree), mkdirs_idempotent, mkdirs_only_adds_dirs, mkdirs_empty; file_equals_iff_bytes (all contents, every page size, with or without pages), "
+        "file_equals_symm, file_equals_missing_false; file_type_table, file_type_other_unknown, file_type_ignores_permissions over the regenerated table. Tie: create_directories on every shape over {a,b,.,..,empty} up to 4 (5) components x 7 trees incl. the resulting tree; "
+        "file_equals at page boundaries, hard links, refused pages; 9 file kinds vs stat/lstat; file_size; canonical_path vs realpath; dir_for_each; descriptor balance.",
+   note="Symlinks, permissions and races are exercised against the real file system only; the mkdirs theorems are about the symlink-free tree. file_size / canonical_path / dir_for_each are judged against direct system calls by the harness, not modelled.", ref="§5 C15"),
+ "C18": dict(cat="other", tech="Lean 4 theorems about the pthread call sequence and status mapping (composed with an assumed pthread contract) plus observation of interposed pthread calls and real threads",
+   text="Proved: create_passes_requested_stack (the attribute handed to pthread_create carries the requested size, for every size), create_runs_once_on_requested_stack (under the platform contract), create_error_reported (SUCCESS iff pthread_create returned 0, regenerated errno table), join_status. "
+        "Observed: the interposed call sequence equals the model's; real threads (stacks from PTHREAD_STACK_MIN to 64 MiB, up to 16 at once; thorough 128) report their stack size, touch the requested depth, run once with their argument, and their plain writes are visible after join.",
+   note="This property is mostly the platform's: pthread semantics are assumed, not verified.", ref="§5 C18"),
+ "C19": dict(cat="other", tech="Lean 4 theorems about the regenerated flock flag expressions and an assumed flock table (mutual exclusion over all interleavings, TRY non-blocking, BLOCK waits, unlock releases) plus observation on real handles and processes",
+   text="Proved: lock_flags_shape (decide on the regenerated expressions), lock_mutual_exclusion (at most one holder after every interleaving of lock/unlock/close by any number of handles), try_returns_immediately (SUCCESS if free, UNAVAILABLE if held), "
+        "block_returns_only_when_acquired, unlock_releases. Observed: flock interposed (flags and status mapping), random handle histories against the model's holder set, forked processes with a shared occupancy counter in both modes, a BLOCK waiter that must not acquire before release.",
+   note="flock semantics are the kernel's (assumed). 'Promptly' for TRY means LOCK_NB is passed, not a stopwatch.", ref="§5 C19"),
 }
 
 NOT_YET = "check not built yet in this revision (framework under construction; see DESIGN.md §8)"
